@@ -68,7 +68,10 @@ TRUSTED_BASE = [
     "Lean, a clause list with per-rule passes in Python - are compared on every recorded statement and on mutated neighbours of them",
     "identifier holes are the code points >= 0x110000 (no Python string contains one); the Lean lexer treats them as identifier "
     "characters - unobservable on real statements",
-    "harness/lib_fake_neo4j.py replaces the neo4j driver (canned answers only let each operation run to its end); the oracle names a "
+    "harness/lib_fake_neo4j.py replaces the neo4j driver: permissive canned answers, EMPTY answers and scripted records (result scenarios of "
+    "the compound operations: nodes stamped with the unmerged ADM only / with others / carrying delegations / none; CBM absent; no common "
+    "node) decide which follow-up statements are issued - a statement behind a result shape no scenario produces is reported as an "
+    "unreached call site, not examined; the values the records carry are tracked into later statements like arguments; the oracle names a "
     "call site Class.method#k from the backend frame that called run() and its own ast scan, independently of the translator; "
     "Neo4j/APOC execution is not modelled at all",
     "grouping of requested components into (type, model, count) rows is done by the harness mirroring neo4j_cbm.py:285-294 and is "
@@ -587,17 +590,16 @@ def build_comps(rows):
 _RUN_LINES = {}
 
 
-def site_of(where):
-    """call-site key `Class.method#k` of the backend frame that called run(): k = rank of that line among the run() calls of the
-    function (found with a plain ast scan of the file, independent of the translator)"""
+def _scan_runs(fn):
+    """{line: 'Class.method#k'} for every `<x>.run(...)` call of every method of every class of one source file: k = rank of the
+    line among the run() calls of the method (a plain ast scan, independent of the translator)"""
     import ast
-    fn, line, qual = where
     if fn not in _RUN_LINES:
         tab = {}
         try:
             tree = ast.parse(open(fn).read())
             for cls in [n for n in tree.body if isinstance(n, ast.ClassDef)]:
-                for f in [n for n in cls.body if isinstance(n, ast.FunctionDef)]:
+                for f in [n for n in cls.body if isinstance(n, (ast.FunctionDef, ast.AsyncFunctionDef))]:
                     lines = sorted({c.lineno for c in ast.walk(f) if isinstance(c, ast.Call) and isinstance(c.func, ast.Attribute)
                                     and c.func.attr == "run"})
                     for k, ln in enumerate(lines):
@@ -605,14 +607,38 @@ def site_of(where):
         except (OSError, SyntaxError):
             pass
         _RUN_LINES[fn] = tab
-    return _RUN_LINES[fn].get(line, "%s@%d" % (qual, line))
+    return _RUN_LINES[fn]
 
 
-def drive(case, via=None):
-    """run one backend call; -> (recorded [(text, sorted param names, params)], error kind or None)"""
+def site_of(where):
+    """call-site key `Class.method#k` of the backend frame that called run()"""
+    fn, line, qual = where
+    return _scan_runs(fn).get(line, "%s@%d" % (qual, line))
+
+
+def source_sites():
+    """every run() call site the five backend modules have TODAY (the harness's own scan of the files the classes were loaded
+    from) - what the correspondence has to reach, whether or not the translator knows the site"""
+    import sys
+    out = set()
+    for rel in cypher.MODULES:
+        mod = sys.modules.get(rel[:-3].replace("/", "."))
+        fn = getattr(mod, "__file__", None) if mod is not None else None
+        if fn is None:
+            classes()
+            mod = sys.modules.get(rel[:-3].replace("/", "."))
+            fn = getattr(mod, "__file__", None) if mod is not None else None
+        if fn:
+            out |= set(_scan_runs(fn).values())
+    return out
+
+
+def drive(case, via=None, canned=None):
+    """run one backend call; -> (recorded [(text, sorted param names, params)], error kind or None).  `canned`: the result
+    sets the stand-in driver answers with (lib_fake_neo4j; default: the permissive one-record answers)"""
     from fim.graph.neo4j_property_graph import Neo4jGraphImporter
     call = call_by_name(case["call"])
-    imp = fake.make_importer()
+    imp = fake.make_importer(canned)
     gid = case["values"].get("graph_id", "G1") if call.target == "graph" else "G1"
     oid = case["values"].get("other_graph_id", "G2")
     other = make_graph("Neo4jPropertyGraph", oid, imp)
@@ -922,9 +948,14 @@ def gen_cases(ctx, tag, per_call_idents, n_values, min_groups=8):
 # correspondence: recorded text == Lean rendering of the generated template; Lean lint == Python lint
 
 def nvariants_table():
+    """{call-site key: number of variants} of the templates the Lean model was BUILT from: read from Generated/Cypher.lean (when the
+    translator does not recognise changed source, core restores the file of the unchanged tree and this table with it - the
+    correspondence then reports what the changed code does differently; re-running the extractor here would only crash)"""
+    from core import LEAN_DIR
     tab = {}
-    for o in cypher.table():
-        tab[o["key"]] = max(tab.get(o["key"], 0), o["variant"] + 1)
+    with open(os.path.join(LEAN_DIR, "FimVerif", "Generated", "Cypher.lean")) as f:
+        for m in re.finditer(r'key := t!"((?:[^"\\]|\\.)*)", variant := (\d+),', f.read()):
+            tab[m.group(1)] = max(tab.get(m.group(1), 0), int(m.group(2)) + 1)
     return tab
 
 
@@ -933,6 +964,7 @@ def correspondence(ctx, res):
     nv = lambda k: tab.get(k, 0)
     driven_keys = set()
     driven_variants = set()
+    reached = set()          # call sites (harness's own scan of the frame that called run()) reached by anything the correspondence ran
     groups = gen_cases(ctx, "corr", ctx.scale(40, 100000), ctx.scale(2, 6), ctx.scale(8, 40))
     cases = []
     for c in corpus_cases():
@@ -953,6 +985,8 @@ def correspondence(ctx, res):
         if call.target == "graph" and call.cls == PG and ci % 3 == 0:
             via = vias[(ci // 3) % 4]
         rec, e = drive(case, via)
+        where = list(drive.where)
+        reached.update(where)
         exp = call.expect(case, nv)
         res.count("call:" + call.name)
         count_shapes(res, case)
@@ -962,6 +996,10 @@ def correspondence(ctx, res):
             res.count("impl-err:" + e)
         if len(rec) != len(exp):
             res.disagreements.append({"case": case, "impl": [r[0] for r in rec], "model": "expected %d statements: %s" % (len(exp), exp)})
+            continue
+        if where != [ex[0] for ex in exp]:
+            res.disagreements.append({"case": case, "impl": {"call sites": where, "statements": [r[0] for r in rec]},
+                                      "model": "expected the statements of the call sites %s" % [ex[0] for ex in exp]})
             continue
         for (text, pnames, _), ex in zip(rec, exp):
             key, variant = ex[0], ex[1]
@@ -1021,6 +1059,21 @@ def correspondence(ctx, res):
     missing = sorted(set(tab) - driven_keys)
     if missing:
         res.disagreements.append({"case": "coverage", "impl": "call sites never reached by the harness", "model": missing})
+    # ... and every run() call site the library has TODAY must be one of the generated table and must have been reached, under
+    # some result scenario: statements that are only issued when earlier results are (non-)empty live behind the answers of the
+    # stand-in driver, so every call is also run against empty results and the compound operations under every scenario
+    extra = result_scenarios_reach(res, tab, reached)
+    src = source_sites()
+    unknown = sorted((src | extra) - set(tab))
+    if unknown:
+        res.disagreements.append({"case": "coverage", "impl": "call sites of the library that have no generated template "
+                                  "(an additional statement / method / branch)", "model": unknown})
+    unreached = sorted((src | set(tab)) - reached)
+    if unreached:
+        res.disagreements.append({"case": "coverage", "impl": "call sites of the library never reached by the correspondence under any "
+                                  "result scenario", "model": unreached})
+    ctx.notes.append("call sites of the library reached under some result scenario: %d of %d (direct calls with permissive and empty "
+                     "results, %d compound scenarios)" % (len((src | set(tab)) & reached), len(src | set(tab)), len(compound_kinds())))
     all_variants = {(k, v) for k, n in tab.items() for v in range(n)}
     missing_v = sorted(all_variants - driven_variants)
     if missing_v:
@@ -1044,6 +1097,41 @@ def correspondence(ctx, res):
         len(want) - len(missing_shapes), len(want)))
     ctx.notes.append("correspondence reached %d of %d template variants" % (len(all_variants & driven_variants), len(all_variants)))
     ctx.notes.append("correspondence drove %d call sites of %d generated" % (len(driven_keys), len(tab)))
+
+
+def results_canned(v):
+    """the permissive answers of the stand-in driver carrying the value `v` wherever a result carries a stored value"""
+    from fim.slivers.capacities_labels import StructuralInfo
+    v = fmt(v)
+    return {"nodeids": [v, v + "2"], "common_ids": [v], "value": [v], "any": [v], "link_props": {"Class": "has", "Name": v},
+            "node_props": {"Name": v, "Class": "NetworkNode", "Type": "Server", "StructuralInfo": StructuralInfo(adm_graph_ids=[v]).to_json()}}
+
+
+def result_scenarios_reach(res, tab, reached):
+    """what else the library issues when the driver answers differently: every call against EMPTY results, every compound
+    operation under every result scenario.  A statement issued from a call site the generated table does not have is a
+    disagreement (never an exception); -> the call sites seen that are not in the table"""
+    rng = __import__("random").Random(0)
+    extra = set()
+
+    def note(case, rec, where):
+        reached.update(where)
+        for (text, _, _), w in zip(rec, where):
+            if w not in tab:
+                extra.add(w)
+                res.disagreements.append({"case": case, "impl": {"site": w, "text": text},
+                                          "model": "no generated template for this call site"})
+    for call in calls():
+        base = corner_groups(call, rng)[0][0]
+        for name, canned in (("empty", {"empty": True}), ("values", results_canned("r1"))):
+            rec, _ = drive(base, canned=canned)
+            res.count("results:%s" % name)
+            note({"kind": "results", "results": name, "base": base}, rec, list(drive.where))
+    for kind in compound_kinds():
+        rec, sites, _ = _compound_run(kind, ("cbm1", "adm1", "n1", "n2", "alpha"))
+        res.count("compound:" + kind)
+        note({"kind": "compound", "op": kind, "ids": ["cbm1", "adm1", "n1", "n2", "alpha"]}, rec, sites)
+    return extra
 
 
 MUT_WORDS = ["WHERE", "AND", "OR", "WITH", "RETURN", "MATCH", "SET", "YIELD", "CALL", "UNWIND", "UNION", "AS", "n", "x", "*", ",", "(", ")",
@@ -1307,6 +1395,38 @@ def argument_sweep(ctx, res):
     res.count("argument-sweep", n)
 
 
+def result_sweep(ctx, res):
+    """deterministic: every call x every argument shape against the stand-in driver answering with (a) nothing, (b) benign records,
+    (c) records carrying each payload: what is issued on empty results is well-formed too, and a value that comes back from the
+    database must not reach the text of a later statement any more than a caller's argument may"""
+    rng = ctx.sub_rng("sweep")
+    n = 0
+    for call in calls():
+        for base, _ in corner_groups(call, rng):
+            n += check_results(base, res)
+    res.evaluations += n
+    res.count("result-sweep", n)
+
+
+def check_results(base, res, payloads=None):
+    n = 0
+    rec0, _ = drive(base, canned=results_canned("r1"))
+    sites = list(drive.where)
+    check_wellformed(rec0, sites, res, {"kind": "results", "base": base, "payload": "r1"})
+    rec_e, _ = drive(base, canned={"empty": True})
+    check_wellformed(rec_e, list(drive.where), res, {"kind": "results", "base": base, "payload": None})
+    for pl in (PAYLOADS if payloads is None else payloads):
+        rec, _ = drive(base, canned=results_canned(pl))
+        n += 1
+        if len(rec) != len(rec0):
+            res.count("result-skip")
+            continue
+        for site, kind, obs, exp in diff_runs(rec0, sites, rec, supplied_values(base) | {pl, pl + "2"}):
+            res.violation("C19:%s:%s:result" % (site, kind), WHAT[kind] + " (a value returned by an earlier query)",
+                          {"kind": "results", "base": base, "payload": pl}, observed=obs, expected=exp)
+    return n
+
+
 def oracle(ctx, res, per_call=None, n_values=None):
     # deterministic corpus first (the known findings' triggering cases live there)
     for c in corpus_cases():
@@ -1314,6 +1434,7 @@ def oracle(ctx, res, per_call=None, n_values=None):
             check_group(c["base"], c.get("advs", []), res)
             res.count("corpus")
     argument_sweep(ctx, res)
+    result_sweep(ctx, res)
     groups = gen_cases(ctx, "oracle", per_call or ctx.scale(25, 100000), n_values or ctx.scale(6, 20), ctx.scale(10, 60))
     for base, advs in groups:
         res.count("call:" + base["call"])
@@ -1325,30 +1446,65 @@ def oracle(ctx, res, per_call=None, n_values=None):
         res.sample({"base": b, "adversarial": a[:1]})
 
 
+# Result scenarios of the compound operations: which records the stand-in driver answers the reading statements with decides which
+# follow-up statements the operation gets to issue.  `op:scenario`; every run() call site a scenario reaches counts as reached.
+COMPOUNDS = {
+    "merge_adm": ["", "empty-cbm", "delegations", "no-common-nodes"],
+    "unmerge_adm": ["", "sole", "delegations", "no-nodes", "foreign"],
+}
+TEMP_ID = "00000000-0000-4000-8000-000000000000"
+
+
+def compound_kinds():
+    return [op + (":" + sc if sc else "") for op, scs in COMPOUNDS.items() for sc in scs]
+
+
 def _compound_run(kind, ids):
-    """merge_adm / unmerge_adm of the CBM against canned answers built from `ids` (graph ids, node ids, names)"""
+    """merge_adm / unmerge_adm of the CBM against result sets built from `ids` (graph ids, node ids, names): what a database holding
+    nodes with these caller-chosen ids / names / ADM stamps would answer.  Scenarios (after the colon):
+      (none)           two nodes stamped with the ADM id AND another one (merge: one common node, no delegations)
+      sole             unmerge: the nodes belong to the unmerged ADM ONLY (they are to be deleted)
+      delegations      the ADM's nodes carry label and capacity delegations keyed by the ADM id (merge: written back through
+                       update_node_properties; unmerge: erased)
+      no-nodes         unmerge: the graph has no nodes;   foreign: the nodes are stamped with other ADMs only
+      empty-cbm        merge: the CBM does not exist yet; no-common-nodes: CBM and ADM share no node id"""
     import io
     import networkx as nx
     from fim.slivers.capacities_labels import StructuralInfo
+    op, _, scen = kind.partition(":")
     cbm_id, adm_id, n1, n2, name = ids
-    si = StructuralInfo(adm_graph_ids=[adm_id, "other"]).to_json()
+    stamp = {"sole": [adm_id], "foreign": ["other", "third"]}.get(scen, [adm_id, "other"])
+    si = StructuralInfo(adm_graph_ids=stamp).to_json()
     g = nx.Graph()
     g.add_node(1, GraphID=adm_id, NodeID=n1, Class="NetworkNode", Name=name, Type="Server")
     g.add_node(2, GraphID=adm_id, NodeID=n2, Class="Component", Name=name, Type="GPU")
     g.add_edge(1, 2, Class="has")
     buf = io.BytesIO()
     nx.write_graphml(g, buf)
-    canned = {"graphml": buf.getvalue().decode(), "nodeids": [n1, n2], "common_ids": [n1],
-              "node_props": {"Name": name, "Class": "NetworkNode", "Type": "Server", "StructuralInfo": si}}
-    imp = fake.make_importer(canned)
+    props = {"Name": name, "Class": "NetworkNode", "Type": "Server", "StructuralInfo": si}
+    deleg = json.dumps({adm_id: {"pool": name}})
+    canned = {"graphml": buf.getvalue().decode(), "nodeids": [] if scen == "no-nodes" else [n1, n2],
+              "common_ids": [] if scen == "no-common-nodes" else [n1], "node_props": props}
+    with_deleg = dict(canned, node_props=dict(props, LabelDelegations=deleg, CapacityDelegations=deleg))
+    imp = fake.make_importer()
+
+    def answer(text, params):
+        site = site_of(imp.driver.where[-1])
+        gid = params.get("graphId")
+        if scen == "empty-cbm" and site.endswith(".graph_exists#0") and gid == cbm_id:
+            return {"records": []}
+        if scen == "delegations" and (op == "unmerge_adm" or gid != cbm_id):
+            return with_deleg       # merge: only the (temporary) ADM graph speaks for the resource, the CBM node has none
+        return canned
+    imp.driver.canned = answer
     cbm = make_graph("Neo4jCBMGraph", cbm_id, imp)
     e = None
     try:
-        if kind == "merge_adm":
+        if op == "merge_adm":
             # uuid4 gives the temporary graph a fresh id on every run; pin it so that two runs are comparable
             import uuid
             orig = uuid.uuid4
-            uuid.uuid4 = lambda: "00000000-0000-4000-8000-000000000000"
+            uuid.uuid4 = lambda: TEMP_ID
             try:
                 cbm.merge_adm(adm=make_graph("Neo4jADMGraph", adm_id, imp))
             finally:
@@ -1374,7 +1530,7 @@ def compound_diff(kind, benign, ids, rec0, sites, res):
     left = {(site, k) for site, k, _, _ in findings}
     if findings:
         for j in range(5):
-            for val in [ids[j]] + [pl + str(j) for pl in PAYLOADS]:
+            for val in [ids[j]] + [str(j) + pl for pl in PAYLOADS]:
                 single = tuple(val if i == j else benign[i] for i in range(5))
                 r1, _, _ = _compound_run(kind, single)
                 hit = False
@@ -1382,24 +1538,29 @@ def compound_diff(kind, benign, ids, rec0, sites, res):
                     for site, k, obs, exp in diff_runs(rec0, sites, r1, set(single)):
                         hit = True
                         left.discard((site, k))
-                        res.violation("C19:%s:%s:%s.%s" % (site, k, kind, COMPOUND_IDS[j]), WHAT[k] + " (%s of %s)" % (COMPOUND_IDS[j], kind),
+                        res.violation("C19:%s:%s:%s.%s" % (site, k, kind.partition(":")[0], COMPOUND_IDS[j]),
+                                      WHAT[k] + " (%s of %s)" % (COMPOUND_IDS[j], kind),
                                       {"kind": "compound", "op": kind, "ids": list(single), "base_ids": list(benign)}, observed=obs, expected=exp)
                 if hit:
                     break
     for site, k, obs, exp in findings:
         if (site, k) in left:
-            res.violation("C19:%s:%s:%s.combination" % (site, k, kind), WHAT[k],
+            res.violation("C19:%s:%s:%s.combination" % (site, k, kind.partition(":")[0]), WHAT[k],
                           {"kind": "compound", "op": kind, "ids": list(ids), "base_ids": list(benign)}, observed=obs, expected=exp)
 
 
 def compound(ctx, res):
-    """the CBM's compound operations (clone, import bookkeeping, delegation rewrite, node merge, unmerge): every statement they
-    issue is well-formed, and issuing them with adversarial graph ids / node ids / names changes no statement text"""
+    """the CBM's compound operations (clone, import bookkeeping, delegation rewrite, node merge, unmerge) under every result scenario
+    (COMPOUNDS: which records the reading statements are answered with decides which follow-up statements are issued): every
+    statement they issue is well-formed, and issuing them with adversarial graph ids / node ids / names - as arguments AND as the
+    values the driver's results carry (stored node ids, names, ADM stamps, delegation keys) - changes no statement text"""
     rng = ctx.sub_rng("compound")
     benign = ("cbm1", "adm1", "n1", "n2", "alpha")
-    for kind in ("merge_adm", "unmerge_adm"):
+    for kind in compound_kinds():
         rec0, sites, e0 = _compound_run(kind, benign)
         res.count("compound:%s:%d-statements" % (kind, len(rec0)))
+        for s in sites:
+            res.count("compound-site:" + s)
         if e0:
             res.count("compound-err:" + e0)
         check_wellformed(rec0, sites, res, {"kind": "compound", "op": kind, "ids": list(benign)})
@@ -1407,8 +1568,8 @@ def compound(ctx, res):
         for j in range(5):
             for pl in PAYLOADS:
                 res.evaluations += 1
-                compound_diff(kind, benign, tuple((pl + str(j)) if i == j else benign[i] for i in range(5)), rec0, sites, res)
-        for i in range(ctx.scale(4, 40)):
+                compound_diff(kind, benign, tuple((str(j) + pl) if i == j else benign[i] for i in range(5)), rec0, sites, res)
+        for i in range(ctx.scale(3, 30)):
             ids = tuple((fmt(adv_value(rng)) or "z") + str(j) for j in range(5))
             res.evaluations += 1
             compound_diff(kind, benign, ids, rec0, sites, res)
@@ -1425,6 +1586,8 @@ def replay(ctx, payload):
         check_group(c["base"], [], r)
     elif c.get("kind") == "independent":
         check_group(c["base"], [c["adv"]], r)
+    elif c.get("kind") == "results":
+        check_results(c["base"], r, payloads=[c["payload"]] if c.get("payload") not in (None, "r1") else [])
     elif c.get("kind") == "compound":
         rec0, sites, _ = _compound_run(c["op"], tuple(c.get("base_ids", c["ids"])))
         check_wellformed(rec0, sites, r, c)
